@@ -26,12 +26,16 @@ pub struct ClientScript {
     /// 3 several pipelined SETs, 4 pipelined GETs of a large value read slowly, 5 a client that
     /// finished (round trips, clean close) before the shutdown window opens, 6 a client that keeps
     /// the connection saturated with pipelined GETs (draining replies) until its stream ends,
-    /// 7 one complete GET of a large value followed by part of the next request
+    /// 7 one complete GET of a large value followed by part of the next request,
+    /// 8 one complete SET whose execution on the blocking thread takes `slow_ms` (the server's
+    /// storage is a wrapper that sleeps before delegating: a write queued behind a merge)
     pub kind: u8,
     pub size: u32,
     pub count: u8,
     pub frac: u16,
     pub read_gap_us: u16,
+    #[serde(default)]
+    pub slow_ms: u16,
 }
 
 #[derive(Clone, Debug, Serialize, Deserialize)]
@@ -39,28 +43,71 @@ pub struct ShutCase {
     pub clients: Vec<ClientScript>,
     /// shutdown fires this long after the clients start their in-window sends
     pub delay_us: u16,
+    /// max_connections of the server: 0 = 16 (far above the number of clients), 1 = exactly the
+    /// number of clients (the accept loop is parked waiting for a slot when shutdown fires),
+    /// 2 = one more than the number of clients
+    #[serde(default)]
+    pub limit: u8,
+}
+
+pub const KINDS: u8 = 9;
+
+/// The server's storage for C16: the real handle, except that a SET of a key `slow:<ms>:...`
+/// sleeps `<ms>` milliseconds before it is applied - a command that stays on the blocking thread
+/// for a while, as a write does that queues behind a merge pass holding the writer lock.
+#[derive(Clone)]
+pub struct SlowKv {
+    inner: bitcask::storage::bitcask::Handle,
+}
+
+impl KeyValueStorage for SlowKv {
+    type Error = <bitcask::storage::bitcask::Handle as KeyValueStorage>::Error;
+    fn set(&self, key: Bytes, value: Bytes) -> Result<(), Self::Error> {
+        if key.starts_with(b"slow:") {
+            let ms: u64 = std::str::from_utf8(&key[5..]).ok().and_then(|t| t.split(':').next()).and_then(|t| t.parse().ok()).unwrap_or(0);
+            std::thread::sleep(Duration::from_millis(ms.min(5000)));
+        }
+        KeyValueStorage::set(&self.inner, key, value)
+    }
+    fn get(&self, key: Bytes) -> Result<Option<Bytes>, Self::Error> {
+        KeyValueStorage::get(&self.inner, key)
+    }
+    fn del(&self, key: Bytes) -> Result<bool, Self::Error> {
+        KeyValueStorage::del(&self.inner, key)
+    }
+}
+
+fn slow_key(ci: usize, ms: u16) -> Vec<u8> {
+    format!("slow:{}:c{}", ms, ci).into_bytes()
 }
 
 fn strategy(tier: Tier) -> BoxedStrategy<ShutCase> {
     let maxsize = tier.pick(300_000u32, 1_048_576u32);
     let script = (
         0u8..3,
-        prop_oneof![1 => Just(0u8), 2 => Just(1u8), 3 => Just(2u8), 3 => Just(3u8), 3 => Just(4u8), 3 => Just(5u8), 2 => Just(6u8), 3 => Just(7u8)],
+        prop_oneof![1 => Just(0u8), 2 => Just(1u8), 3 => Just(2u8), 3 => Just(3u8), 3 => Just(4u8), 3 => Just(5u8), 2 => Just(6u8), 3 => Just(7u8), 2 => Just(8u8)],
         prop_oneof![2 => 1u32..200, 2 => 8000u32..70000, 2 => 100_000u32..maxsize],
         2u8..12,
         1u16..u16::MAX,
         prop_oneof![2 => Just(0u16), 1 => 50u16..2000],
+        // mostly tens of milliseconds; now and then longer than a second
+        prop_oneof![30 => 1u16..25, 8 => 25u16..120, 1 => 1100u16..1400],
     )
-        .prop_map(|(pre_sets, kind, size, count, frac, read_gap_us)| ClientScript {
+        .prop_map(|(pre_sets, kind, size, count, frac, read_gap_us, slow_ms)| ClientScript {
             pre_sets,
             kind,
             size,
             count,
             frac,
             read_gap_us,
+            slow_ms,
         });
-    (proptest::collection::vec(script, 1..=6), prop_oneof![1 => Just(0u16), 3 => 1u16..1500, 2 => 1500u16..8000])
-        .prop_map(|(clients, delay_us)| ShutCase { clients, delay_us })
+    (
+        proptest::collection::vec(script, 1..=6),
+        prop_oneof![1 => Just(0u16), 3 => 1u16..1500, 2 => 1500u16..8000],
+        prop_oneof![2 => Just(0u8), 2 => Just(1u8), 1 => Just(2u8)],
+    )
+        .prop_map(|(clients, delay_us, limit)| ShutCase { clients, delay_us, limit })
         .boxed()
 }
 
@@ -133,7 +180,7 @@ fn client_thread(ci: usize, s: ClientScript, addr: String, go: Arc<Barrier>) -> 
             }
         }
     }
-    if s.kind % 8 == 4 || s.kind % 8 == 7 {
+    if s.kind % KINDS == 4 || s.kind % KINDS == 7 {
         // the large value the slow reader will fetch (acknowledged before the window)
         let v = value(ci, idx, s.size as usize);
         idx += 1;
@@ -148,7 +195,7 @@ fn client_thread(ci: usize, s: ClientScript, addr: String, go: Arc<Barrier>) -> 
             }
         }
     }
-    if s.kind % 8 == 5 {
+    if s.kind % KINDS == 5 {
         // finished before the window: everything it sent was acknowledged; close cleanly
         cl.close();
         rep.ended = true;
@@ -156,7 +203,7 @@ fn client_thread(ci: usize, s: ClientScript, addr: String, go: Arc<Barrier>) -> 
         return rep;
     }
     go.wait();
-    match s.kind % 8 {
+    match s.kind % KINDS {
         0 => {}
         1 => {
             let v = value(ci, idx, (s.size as usize).min(70000));
@@ -199,6 +246,13 @@ fn client_thread(ci: usize, s: ClientScript, addr: String, go: Arc<Barrier>) -> 
             // GET replies do not change the store; the number answered is whatever arrived
             let _ = sent_batches;
             rep.flood = true;
+        }
+        8 => {
+            let v = value(ci, idx, (s.size as usize).min(2000));
+            let k = slow_key(ci, s.slow_ms);
+            let _ = cl.send(&command(&[b"SET", &k, &v]));
+            rep.sent.push(Cmd::Set(k, v));
+            rep.mid = true;
         }
         7 => {
             let mut all = command(&[b"GET", &key2]);
@@ -251,7 +305,19 @@ fn exec(c: &ShutCase, env: &Env) -> Outcome {
         return out;
     }
     let dir = env.fresh_dir("netstore");
-    let mut srv = match ServerFx::start(&dir, &net_store_cfg(2 << 30), 16, 4) {
+    let max_connections = match c.limit % 3 {
+        0 => 16,
+        1 => c.clients.len(),
+        _ => c.clients.len() + 1,
+    };
+    out.label(format!("limit-mode-{}", c.limit % 3));
+    crate::netfx::MEASURE_OPEN_AT_RETURN.store(true, std::sync::atomic::Ordering::SeqCst);
+    let base_threads = crate::store::thread_count();
+    let started = crate::store::open_caught(&net_store_cfg(2 << 30), &dir).and_then(|kv| {
+        let storage = SlowKv { inner: kv.get_handle() };
+        ServerFx::start_with_storage(kv, storage, max_connections, 4, base_threads)
+    });
+    let mut srv = match started {
         Ok(s) => s,
         Err(e) => {
             out.inconclusive = Some(e);
@@ -276,7 +342,7 @@ fn exec(c: &ShutCase, env: &Env) -> Outcome {
 
     let mut mid = false;
     for (ci, r) in reports.iter().enumerate() {
-        out.label(format!("client-kind-{}", c.clients[ci].kind % 8));
+        out.label(format!("client-kind-{}", c.clients[ci].kind % KINDS));
         if r.mid {
             mid = true;
         }
@@ -294,6 +360,21 @@ fn exec(c: &ShutCase, env: &Env) -> Outcome {
             true,
         ));
     }
+    let open_at_return = srv.open_at_return.load(std::sync::atomic::Ordering::SeqCst);
+    if verdict.is_none() && returned && open_at_return > 0 {
+        // a handler closes its socket before it lets go of the completion channel, and the
+        // listening socket is closed inside run(): when run() returns nothing may be open
+        verdict = Some((
+            "run-returned-with-open-connections".into(),
+            format!(
+                "at the instant Server::run returned, {} server-side connection(s) were still open (ESTABLISHED/CLOSE_WAIT in /proc/net/tcp): run() did not wait until the connections had wound down (max_connections = {}, {} clients)",
+                open_at_return,
+                max_connections,
+                c.clients.len()
+            ),
+            false,
+        ));
+    }
     if verdict.is_none() {
         for (ci, r) in reports.iter().enumerate() {
             if let Some(e) = &r.error {
@@ -307,7 +388,7 @@ fn exec(c: &ShutCase, env: &Env) -> Outcome {
             if !r.ended {
                 verdict = Some((
                     "connection-not-closed".into(),
-                    format!("client {} (kind {}): the server did not end the stream within 12 s after the shutdown signal", ci, c.clients[ci].kind % 8),
+                    format!("client {} (kind {}): the server did not end the stream within 12 s after the shutdown signal", ci, c.clients[ci].kind % KINDS),
                     true,
                 ));
                 break;
@@ -317,7 +398,7 @@ fn exec(c: &ShutCase, env: &Env) -> Outcome {
             // a connection reset
             // (only for clients that had at least one round trip: a connection that is still in the
             // listen backlog when the listener closes is reset by the kernel, legitimately)
-            if c.clients[ci].kind % 8 == 0 && r.reset && !r.replies.is_empty() {
+            if c.clients[ci].kind % KINDS == 0 && r.reset && !r.replies.is_empty() {
                 verdict = Some((
                     "idle-connection-reset".into(),
                     format!(
@@ -336,7 +417,7 @@ fn exec(c: &ShutCase, env: &Env) -> Outcome {
                     format!(
                         "client {} (kind {}): after {} complete replies the stream ended cleanly with {} bytes of an incomplete reply",
                         ci,
-                        c.clients[ci].kind % 8,
+                        c.clients[ci].kind % KINDS,
                         r.replies.len(),
                         r.trailing
                     ),
@@ -390,7 +471,7 @@ fn exec(c: &ShutCase, env: &Env) -> Outcome {
         // store equals the state after its first j commands for some j >= acknowledged
         for (ci, r) in reports.iter().enumerate() {
             let acked = r.replies.len().min(r.sent.len());
-            let keys: Vec<Vec<u8>> = vec![format!("c{}k", ci).into_bytes(), format!("c{}big", ci).into_bytes()];
+            let keys: Vec<Vec<u8>> = vec![format!("c{}k", ci).into_bytes(), format!("c{}big", ci).into_bytes(), slow_key(ci, c.clients[ci].slow_ms)];
             let mut store: Vec<Option<Vec<u8>>> = Vec::new();
             for k in &keys {
                 match srv.handle.get(Bytes::from(k.clone())) {
@@ -423,7 +504,7 @@ fn exec(c: &ShutCase, env: &Env) -> Outcome {
                     format!(
                         "client {} (kind {}): {} commands sent, {} acknowledged; after shutdown the store holds {:?} (lengths) for its keys, which is not the state after any prefix of at least the acknowledged commands",
                         ci,
-                        c.clients[ci].kind % 8,
+                        c.clients[ci].kind % KINDS,
                         r.sent.len(),
                         acked,
                         store.iter().map(|s| s.as_ref().map(|v| v.len())).collect::<Vec<_>>()
@@ -470,14 +551,14 @@ pub fn prop() -> Prop<ShutCase> {
     Prop {
         id: "C16",
         level: "exploration",
-        rule: "Cases: 1-6 clients against an in-process server, each scripted into a state at the moment shutdown fires: idle after 0-2 acknowledged SETs; part of a frame sent (generated fraction); one complete SET with a value up to 300 KiB (1 MiB thorough) sent and the reply not yet read; 2-11 pipelined SETs; 12-66 pipelined GETs of a large value (up to 20 MB of replies, more than the socket buffers hold) read late and slowly; or already finished (acknowledged round trips and a clean close before the window); a client that keeps the connection saturated with batches of pipelined GETs until its stream ends; one complete GET of a large value followed by part of the next request. The shutdown signal fires a generated 0-8 ms after the clients start those sends. Every client then reads to the end of its stream and closes. Oracles: Server::run returns within 10 s after the last client closed; the server ends every stream within 12 s; each client's bytes parse with a strict reader into complete, correct replies in order followed by end of stream (a partial reply before a clean EOF is a torn reply; after a connection reset trailing bytes are not judged); after run returned, for each client the store equals the state after its first j complete commands for some j >= the number of replies it received. Non-trivial: shutdown fired while at least one client was mid-frame or mid-command; distinct = distinct hash of the case.",
+        rule: "Cases: 1-6 clients against an in-process server, each scripted into a state at the moment shutdown fires: idle after 0-2 acknowledged SETs; part of a frame sent (generated fraction); one complete SET with a value up to 300 KiB (1 MiB thorough) sent and the reply not yet read; 2-11 pipelined SETs; 12-66 pipelined GETs of a large value (up to 20 MB of replies, more than the socket buffers hold) read late and slowly; or already finished (acknowledged round trips and a clean close before the window); a client that keeps the connection saturated with batches of pipelined GETs until its stream ends; one complete GET of a large value followed by part of the next request; one complete SET whose execution on the blocking thread takes 1-120 ms, now and then 1.1-1.4 s (the server's storage is a wrapper around the real handle that sleeps before a SET of a key named slow:<ms>:..., standing for a write queued behind a merge). max_connections is 16, exactly the number of clients (the accept loop is parked waiting for a slot when shutdown fires) or one more. The shutdown signal fires a generated 0-8 ms after the clients start those sends. Every client then reads to the end of its stream and closes. Oracles: Server::run returns within 10 s after the last client closed; at the instant run returns (measured on the server's own task before anything else is dropped) no server-side socket of the server's port is still ESTABLISHED or CLOSE_WAIT in /proc/net/tcp - run waits until the connections have wound down; the server ends every stream within 12 s; each client's bytes parse with a strict reader into complete, correct replies in order followed by end of stream (a partial reply before a clean EOF is a torn reply; after a connection reset trailing bytes are not judged); after run returned, for each client the store equals the state after its first j complete commands for some j >= the number of replies it received. Non-trivial: shutdown fired while at least one client was mid-frame or mid-command; distinct = distinct hash of the case.",
         assumptions: &[
             "a client that never reads and never closes is not generated: run() is required to return once connections have wound down",
             "end of stream is accepted as EOF or connection reset (a server closing a socket with unread pipelined requests sends RST, which may purge data the client had not read yet), except for clients that were idle at the shutdown: nothing of theirs is unread, so their stream must end with EOF",
             "missed liveness bounds count as violations only after a fast calibration round trip on an idle second server",
         ],
         needs_shim: false,
-        budget: |t| t.pick(16000, 60000),
+        budget: |t| t.pick(12000, 60000),
         shards: |_| 16,
         strategy,
         exec,
